@@ -13,6 +13,7 @@ pub mod edwards;
 pub mod formulas;
 pub mod group_ops;
 pub mod helpers;
+pub mod memory;
 pub mod montgomery;
 pub mod public_consts;
 pub mod ristretto;
@@ -81,6 +82,9 @@ fn dispatch(req: &Req) -> Out {
     }
     if op.starts_with("gp.") {
         return group_ops::exec(op, a);
+    }
+    if op.starts_with("mem.") {
+        return memory::exec(op, a);
     }
     if op.starts_with("kp.") {
         return public_consts::exec(op, a);
